@@ -116,12 +116,15 @@ func runC03(c *Ctx) {
 	}
 	c.Rule("C03.W", "writer types do not grow optional net/http interfaces", 4)
 	ruleWriterMethodSets(c, p, "C03.W")
-	c.Rule("C03.S", "status and body pass through the wrappers and the proxy unchanged; the backend-facing transport accepts any response", 19)
+	c.Rule("C03.S", "status and body pass through the wrappers and the proxy unchanged; the backend-facing transport accepts any response", 17)
 	ruleStatusBodyPassThrough(c, p, "C03.S")
 	// the stand-alone proxy copies the body to its client from the handler's own goroutine, with
 	// nothing else writing or flushing the ResponseWriter (= C01.K): a helper goroutine that
 	// flushes on a ticker, or copies, can still be inside the writer when the handler returns
 	c.Borrow(runC01, "C01.K", "C03.S", func(k string) bool { return k == "ServeHTTP:body-to-own-writer" })
+	// the response the stand-alone proxy relays is parsed from the agent's upload itself (= C01.W):
+	// a size limit wrapped around that reader "for the head" also caps the body
+	c.Borrow(runC01, "C01.W", "C03.S", func(k string) bool { return k == "post:parsed-from-own-body" })
 	ruleBodyStreamEndsCleanly(c, p, "C03.S")
 	ruleServerTrailersAfterBody(c, p, "C03.S")
 	ruleNoMutationOfHTTPDefaults(c, p, "C03.S")
@@ -468,6 +471,9 @@ func canonicalHeaderKey(s string) string {
 // a dominating comma-ok lookup in utils.hopHeaders or call of
 // server.isHopByHopHeader with the same key.
 func hopGuard(i ssa.Instruction, key ssa.Value, want bool) bool {
+	if !want && keyFromFilteredList(key) {
+		return true
+	}
 	for _, g := range GuardingIfs(i) {
 		cond, trueSucc := BoolTest(g.If)
 		tested, isHop := hopPredicate(cond, 0)
@@ -480,6 +486,84 @@ func hopGuard(i ssa.Instruction, key ssa.Value, want bool) bool {
 		}
 	}
 	return false
+}
+
+// keyFromFilteredList: the copied key is an element of a list that a new helper built, and
+// every element that helper appends to the list it returns is on the not-hop-by-hop side of
+// the predicate there (for _, k := range declaredTrailerNames(values) { trailer[k] = … }).
+func keyFromFilteredList(key ssa.Value) bool {
+	var list ssa.Value
+	switch x := key.(type) {
+	case *ssa.UnOp:
+		if ia, ok := x.X.(*ssa.IndexAddr); ok && x.Op == token.MUL {
+			list = ia.X
+		}
+	case *ssa.Extract:
+		if nx, ok := x.Tuple.(*ssa.Next); ok {
+			if rg, ok := nx.Iter.(*ssa.Range); ok {
+				list = rg.X
+			}
+		}
+	}
+	if list == nil {
+		return false
+	}
+	call, ok := list.(*ssa.Call)
+	if !ok {
+		return false
+	}
+	h := StaticFunc(call.Common())
+	if h == nil || !IsNewHelper(h) || len(h.Blocks) == 0 {
+		return false
+	}
+	napp, okAll := 0, true
+	EachInstrRaw(h, func(i ssa.Instruction) {
+		ap, isCall := i.(*ssa.Call)
+		if !isCall {
+			return
+		}
+		b, isB := ap.Call.Value.(*ssa.Builtin)
+		if !isB || b.Name() != "append" || len(ap.Call.Args) != 2 {
+			return
+		}
+		if _, isStr := ap.Type().Underlying().(*types.Slice).Elem().Underlying().(*types.Basic); !isStr {
+			return
+		}
+		napp++
+		// the appended element(s): stores into the variadic backing array
+		sl, isSl := ap.Call.Args[1].(*ssa.Slice)
+		if !isSl {
+			okAll = false
+			return
+		}
+		found := false
+		for _, r := range Refs(sl.X) {
+			ia, isIA := r.(*ssa.IndexAddr)
+			if !isIA {
+				continue
+			}
+			for _, u := range Refs(ia) {
+				if st, isSt := u.(*ssa.Store); isSt && st.Addr == ssa.Value(ia) {
+					found = true
+					guarded := false
+					for _, g := range GuardingIfs(ap) {
+						cond, trueSucc := BoolTest(g.If)
+						tested, isHop := hopPredicate(cond, 0)
+						if isHop && sameKey(tested, st.Val) && g.Succ != trueSucc {
+							guarded = true
+						}
+					}
+					if !guarded {
+						okAll = false
+					}
+				}
+			}
+		}
+		if !found {
+			okAll = false
+		}
+	})
+	return napp > 0 && okAll
 }
 
 // hopPredicate recognises a hop-by-hop membership test and returns the key
@@ -758,6 +842,22 @@ func knownGuard(cond ssa.Value, fn *ssa.Function) bool {
 		n := CalleeName(x.Common())
 		if strings.HasSuffix(n, "/server.isHopByHopHeader") || n == "strings.HasPrefix" {
 			return true
+		}
+		// a predicate over the status parameter alone (isInterimStatus(status)): the same kind of
+		// test as an inline comparison of the status with constants
+		if h, ok := calleeFn(x.Call.Value); ok && IsNewHelper(h) && len(fn.Params) >= 2 && len(x.Call.Args) > 0 {
+			onlyStatus := true
+			for _, a := range x.Call.Args {
+				if _, isC := a.(*ssa.Const); isC {
+					continue
+				}
+				if a != ssa.Value(ParamAt(fn, 1)) {
+					onlyStatus = false
+				}
+			}
+			if onlyStatus {
+				return true
+			}
 		}
 		// a select moved into a new helper that reports which arm was taken: every return is a
 		// boolean constant reached under select-arm tests only
